@@ -7,8 +7,15 @@ import random
 import common as C
 
 
-def harness():
-    return C.build_harness("k6-capi", "k6_capi.cc", ["-O1", "-g", "-fsanitize=undefined", "-fno-sanitize-recover=all"])
+# instantiations of the wrapper template: key and mapped types of equal and of different sizes
+TYPES = [("int", "int"), ("int", "long long"), ("long long", "short")]
+
+
+def harness(types=TYPES[0]):
+    kt, mt = types
+    name = "k6-capi" if types == TYPES[0] else "k6-capi-%s-%s" % (kt.replace(" ", ""), mt.replace(" ", ""))
+    return C.build_harness(name, "k6_capi.cc", ["-O1", "-g", "-fsanitize=undefined", "-fno-sanitize-recover=all",
+                                                  "-DVH_KT=" + kt, "-DVH_MT=" + mt])
 
 
 def scenario(rng, nops, collide=False):
@@ -109,20 +116,29 @@ def explore(tier, seed):
     rng = random.Random(seed * 9173 + 6)
     out = {"scenarios": 0, "requests": 0, "findings": [], "crashes": [], "build_errors": [], "samples": [], "sweeps": 0,
            "fault_positions": 0, "prefixes": 0, "entry_kinds": {}}
-    ok, exe, log = harness()
-    if not ok:
-        out["build_errors"].append({"log": log[-2500:]})
+    exes = {}
+    with cf.ThreadPoolExecutor(max_workers=4) as ex:
+        futs = {t: ex.submit(harness, t) for t in TYPES}
+        for t, f in futs.items():
+            ok, exe, log = f.result()
+            if not ok:
+                out["build_errors"].append({"log": "types %s -> %s: " % t + log[-2500:]})
+            else:
+                exes[t] = exe
+    if not exes:
         return out
     n = 24 if tier == "quick" else 200
     nops = 120 if tier == "quick" else 400
-    jobs = [scenario(random.Random(rng.getrandbits(40)), nops, collide=(i % 4 == 3)) for i in range(n)]
+    tl = sorted(exes)
+    jobs = [(tl[i % len(tl)], scenario(random.Random(rng.getrandbits(40)), nops, collide=(i % 4 == 3))) for i in range(n)]
 
-    def work(lines):
-        rc, res, err = run_scenario(exe, lines)
-        return lines, rc, res, err
+    def work(j):
+        types, lines = j
+        rc, res, err = run_scenario(exes[types], lines)
+        return types, lines, rc, res, err
 
     with cf.ThreadPoolExecutor(max_workers=14) as ex:
-        for lines, rc, res, err in ex.map(work, jobs):
+        for types, lines, rc, res, err in ex.map(work, jobs):
             out["scenarios"] += 1
             out["requests"] += len(lines)
             if not out["samples"]:
@@ -137,10 +153,10 @@ def explore(tier, seed):
                     out["prefixes"] += int(lo.split("prefixes=")[1])
                 cl = classify(li, lo)
                 if cl:
-                    out["findings"].append({"properties": sorted(cl[0]), "request": li, "answer": lo,
+                    out["findings"].append({"properties": sorted(cl[0]), "request": li, "answer": lo, "types": list(types),
                                             "prefix": lines[:lines.index(li) + 1]})
                     break
             if rc != 0 or len(res) < len(lines):
-                out["crashes"].append({"rc": rc, "at_request": lines[len(res)] if len(res) < len(lines) else "<end>",
+                out["crashes"].append({"rc": rc, "at_request": lines[len(res)] if len(res) < len(lines) else "<end>", "types": list(types),
                                        "tail": err, "prefix": lines[:len(res) + 1]})
     return out
